@@ -893,8 +893,9 @@ def _confirm(case, gname, model, ctx, env, goal_index=None, exc=None, tb=None, c
 TIERS = {
     "quick": dict(timeout_ms=20000, feas_timeout_ms=400, case_budget_s=150, cross=True, cross_per_case=1, cross_cap_s=20,
                   cross_cases=6),
+    # wall_s: wall-clock budget of the whole run; cases not started by then are reported as not run (never as passed)
     "thorough": dict(timeout_ms=120000, feas_timeout_ms=2000, case_budget_s=900, cross=True, cross_per_case=2, cross_cap_s=60,
-                     cross_cases=24),
+                     cross_cases=24, wall_s=3 * 3600),
 }
 
 _CASES = []
@@ -937,7 +938,14 @@ def _run_parallel(reports, jobs, cfg):
     def dead(i, why):
         return (i, dict(name=_CASES[i].name, family=_CASES[i].family, params=_CASES[i].params, harness_error=why))
 
+    wall = float(os.environ.get("VERIF_WALL_S") or cfg.get("wall_s") or 0)
+    deadline = time.time() + wall if wall else None
     while pending or running:
+        if deadline and pending and time.time() > deadline:
+            for i in pending:
+                reports[i] = dict(name=_CASES[i].name, family=_CASES[i].family, params=_CASES[i].params,
+                                  skipped="not started within the tier's wall-clock budget of %ds" % wall)
+            pending = []
         while pending and len(running) < jobs:
             i = pending.pop(0)
             pc, cc = ctxm.Pipe(duplex=False)
@@ -1070,6 +1078,8 @@ def run_check(prop, cases, tier, meta, seed=0, only=None, jobs=None):
     funcs, ops, fallbacks, pcs, pil = set(), {}, {}, set(), {}
     inconclusive = []
     samples = []
+    skipped = [r["name"] for r in reports if r.get("skipped")]
+    reports = [r for r in reports if not r.get("skipped")]
     for rep in reports:
         if "harness_error" in rep:
             harness_errors.append(rep)
@@ -1139,6 +1149,8 @@ def run_check(prop, cases, tier, meta, seed=0, only=None, jobs=None):
         print("SOLVER-DISAGREEMENT: %d cross-checked queries disagree" % tot["cross_dis"])
     for f in st_fail:
         print("KERNEL-SELFTEST-FAILURE: %s" % f)
+    if skipped:
+        print("NOT-RUN: %d of %d cases were not started within the tier's wall-clock budget (listed in the evidence file)" % (len(skipped), len(cases)))
     if exit_code == 0 and (harness_errors or vacuous or tot["cross_dis"] or not_repro or gaps or st_fail):
         exit_code = 2
 
@@ -1157,6 +1169,8 @@ def run_check(prop, cases, tier, meta, seed=0, only=None, jobs=None):
                               "pairs whose assertions were handed to the solver with at least one symbolic variable"),
         exhaustive=False,
         cases=n_cases_ok,
+        cases_not_run=len(skipped),
+        cases_not_run_names=skipped[:60],
         paths=tot["paths"],
         paths_unwound=tot["unwound"],
         paths_not_explored=tot["leftover"],
